@@ -7,7 +7,27 @@ MODULE = "PropC08"
 THEOREMS = ["C08_code_conforms", "C08_process_order", "C08_creation_is_arrival_order", "C08_final_order", "C08_fanin_order"]
 
 
+def build_burst(rng, i):
+    """many started tasks of one process waiting at the same time, after a few were already forwarded: the first k inputs
+    arrive and leave at once, the other 17-37 arrive together in a burst (their upstream tasks all sleep, in parallel, and are
+    then forwarded back to back) while each task of the process under test takes a while"""
+    sp = t3.Spec(maxtasks=64, bufsize=rng.choice([1, 128]))
+    k = rng.randint(1, 5)
+    L = k + rng.randint(17, 37)
+    paths = ["s%02d.txt" % j for j in range(L)]
+    for p in paths:
+        sp.files[p] = p + "\n"
+    s = sp.src("src", paths)
+    gate = 'sleep 0.$(( $(echo {i:a|basename} | tr -dc 0-9 | sed "s/^0*//;s/^$/0/") < %d ? 0 : 4 ))' % k
+    p0 = sp.proc(t3.Proc("p0", kind="cat", ins=[("a", [(s, "out")])], outs=[("o", "{i:a}.p0")], sleep=gate))
+    a = sp.proc(t3.Proc("p1", kind="cattok", ins=[("a", [(p0, "o")])], outs=[("o", "{i:a}.p1")], sleep="sleep 0.0%d" % rng.randint(2, 6)))
+    recs = [(sp.raw("REC %s %d %s" % (vlib.hx("rec_p1_o"), a, vlib.hx("o"))), a, "o")]
+    return sp, recs
+
+
 def build(rng, i):
+    if i % 8 == 7:
+        return build_burst(rng, i)
     buf = rng.choice([1, 2, 3, 128]) if i % 4 != 1 else rng.choice([1, 2])
     sp = t3.Spec(maxtasks=rng.choice([2, 4, 8]), bufsize=buf)
     L = rng.randint(2, 7) if i % 4 != 1 else rng.randint(5, 8)
@@ -84,7 +104,7 @@ def run(rep, tier, seed):
     t3.report_t3(rep, MODULE, proved, results, "T3 recorder order")
     rep.cov["evaluations"] = len(results)
     rep.cov["distinct_nontrivial"] = len({r["spec"] for r in results if r["ntasks"] >= 3})
-    rep.cov["rule"] = "a source of 2-7 files feeds a two-output process whose task durations are a pseudo-random function of the input or strictly decreasing (later tasks finish first), optionally followed by a second process; recorder components on every out-port log the received paths; the logged sequence must equal the outputs of the tasks in arrival order; maxConcurrentTasks in {2,4,8}, SCIPIPE_BUFSIZE in {1,2,3,128}; non-trivial = at least three tasks"
+    rep.cov["rule"] = "a source of 2-7 files feeds a two-output process whose task durations are a pseudo-random function of the input or strictly decreasing (later tasks finish first), optionally followed by a second process; recorder components on every out-port log the received paths; the logged sequence must equal the outputs of the tasks in arrival order; maxConcurrentTasks in {2,4,8}, SCIPIPE_BUFSIZE in {1,2,3,128}; in one run of eight, 1-5 inputs pass and then 17-37 more arrive in a burst, so that many started tasks wait at once after some were already forwarded; non-trivial = at least three tasks"
     rep.cov["samples"] = [results[0]["spec"]]
     rep.notes["input_distribution"] = {"runs": len(results), "tasks_executed_total": sum(r["ntasks"] for r in results)}
     rep.assump += ["H-chan: Go channels are FIFO"]
